@@ -36,8 +36,32 @@ def stop_vs_objective(rng):
     return dict(sequence=seq, constraints=cons, objectives=objs, settings=problems.rand_settings(rng), np_seed=rng.randint(0, 10 ** 6))
 
 
+def protected_kmers_vs_objective(rng):
+    """k-mers of a sub-region must stay unique in the whole sequence; an objective rewards writing a copy of one of them
+    in the flank (outside the sub-region, inside the reference)"""
+    from gen import hard
+    n = rng.randint(30, 60)
+    seq = hard.rand_seq(rng, n)
+    k = rng.choice([4, 5, 6])
+    m = rng.randint(12, n // 2)
+    left = rng.random() < 0.5
+    loc = [0, m, rng.choice([0, 1])] if left else [n - m, n, rng.choice([0, 1])]
+    i = rng.randint(loc[0], loc[1] - k)
+    word = seq[i:i + k]
+    lo, hi = (m + 2, n - k) if left else (0, n - m - k - 2)
+    if hi < lo:
+        lo = hi = max(0, min(n - k, lo))
+    j = rng.randint(lo, hi)
+    cons = [dict(kind="kmers", k=k, location=loc, rc=rng.random() < 0.5)]
+    objs = [dict(kind="sequence_obj", sequence=word, location=[j, j + k, 1], boost=rng.choice([1, 2]))]
+    return dict(sequence=seq, constraints=cons, objectives=objs, settings=problems.rand_settings(rng), np_seed=rng.randint(0, 10 ** 6))
+
+
 def gen_cases(rng, n):
     for i in range(n):
+        if i % 10 == 7:
+            yield dict(desc=protected_kmers_vs_objective(rng), op="optimize", pre_ops=("resolve",))
+            continue
         if i % 5 == 4:
             yield dict(desc=stop_vs_objective(rng), op="optimize", pre_ops=("resolve",))
             continue
